@@ -253,7 +253,7 @@ def _chunk(arg):
     items = []
     for idx in idxs:
         r = rng_for(seed, "graph", idx)
-        a = gen_story.generate(r.randrange(1 << 30), dict(params=0.7, block_jumps=0.5, top_jumps=0.4, block_choices=0.6, join=0.4, hooks=0.3, empty_passage=0.5))
+        a = gen_story.generate(r.randrange(1 << 30), dict(params=0.7, block_jumps=0.5, top_jumps=0.4, block_choices=0.6, join=0.4, hooks=0.3, empty_passage=0.5, odd_names=0.35))
         corrupted = None
         if r.random() < 0.45:
             corrupted = corrupt(r, a)
